@@ -387,7 +387,9 @@ def check_object_state(facts, run, eff, cg, entries):
         ctor_reach |= cg.reachable([c])
     post = {}
     for (adt, fld), ws in written.items():
-        outside = [w for w in ws if w[0] not in ctors and not _only_called_from(cg, w[0], ctors)]
+        # (a helper that was spliced into all of its callers is dead as a function: its writes are examined where they now are)
+        dead = {w_ for w_ in getattr(facts, "spliced_helpers", ()) if not cg.callers(w_)}
+        outside = [w for w in ws if w[0] not in ctors and w[0] not in dead and not _only_called_from(cg, w[0], ctors, dead)]
         if outside:
             post[(adt, fld)] = outside
     run.extra["object_types"] = sorted(objs)
@@ -422,8 +424,8 @@ def check_object_state(facts, run, eff, cg, entries):
             run.inst("C13.P4", "state:%s.%s" % (adt.split("::")[-1], fld), ok, why, ws[0][2])
 
 
-def _only_called_from(cg, p, ctors):
-    callers = cg.callers(p)
+def _only_called_from(cg, p, ctors, dead=()):
+    callers = [c for c in cg.callers(p) if c not in dead]
     if not callers:
         return False
     seen = set()
@@ -435,7 +437,7 @@ def _only_called_from(cg, p, ctors):
         seen.add(c)
         if c in ctors:
             continue
-        cs = cg.callers(c)
+        cs = [c2 for c2 in cg.callers(c) if c2 not in dead]
         if not cs:
             return False
         st.extend(cs)
